@@ -86,8 +86,8 @@ def t_alphabet(b):
     return sorted(out)
 
 
-def check_path(segs, case, acc, Ts=None, pair_max_n=3):
-    p = Path(*segs)
+def check_path(segs, case, acc, Ts=None, pair_max_n=3, path_obj=None):
+    p = Path(*segs) if path_obj is None else path_obj
     n = len(segs)
     ls, tot, fr, b = reference(segs)
     size = max(abs(q) for s in segs for q in (s.start, s.end)) + tot
@@ -198,6 +198,24 @@ def check_path(segs, case, acc, Ts=None, pair_max_n=3):
     acc.seen('joints:' + ('none' if n == 1 else ('all' if cont else ('some' if any(joins) else 'no'))))
 
 
+def check_after_arc_approximation(word, how, acc):
+    """a path with arcs answers T2t / point / length, has its arcs replaced IN PLACE by Bezier curves
+    (Path.approximate_arcs_with_cubics / _quads), and must then be coherent for its NEW segments"""
+    segs = build(word, ['exact'] * (len(word) - 1))
+    p = Path(*segs)
+    ls, tot, fr, b = reference(segs)
+    for T in t_alphabet(b):
+        outcome(lambda: (p.T2t(T), p.point(T)))
+    outcome(lambda: p.length())
+    r = outcome(lambda: getattr(p, how)())
+    case = {'what': 'arc_approximation', 'word': list(word), 'how': how}
+    if r[0] != 'ok':
+        acc.violation('raises_for_T_in_range', {'fn': how, 'exc': r[1]}, case, observed=r)
+        return
+    acc.seen('after_arc_approximation')
+    check_path(list(p), case, acc, pair_max_n=0, path_obj=p)
+
+
 def tier_params(tier, seed):
     if tier == 'quick':
         return {'n': 4, 'equal_ks': [2, 3, 5, 6, 7, 10, 13, 49]}
@@ -216,12 +234,20 @@ def shards(tier, seed):
     tp = tier_params(tier, seed)
     out = [{'what': 'words', 'first': i, 'second': j} for i in range(len(POOL) - 1) for j in range(-1, len(POOL))]
     out.append({'what': 'equal'})
+    out.append({'what': 'arc_approximation'})
     return out
 
 
 def run_shard(desc, tier, seed):
     acc = core.Acc()
     tp = tier_params(tier, seed)
+    if desc['what'] == 'arc_approximation':
+        ai = [i for i, e in enumerate(POOL) if e[1] == 'A'][0]
+        for w in words(3):
+            if ai in w:
+                for how in ('approximate_arcs_with_cubics', 'approximate_arcs_with_quads'):
+                    check_after_arc_approximation(w, how, acc)
+        return acc
     if desc['what'] == 'equal':
         for k in tp['equal_ks']:
             for d in (1 + 0j, 0.1 + 0.2j, 3 - 7j, 1e-3 + 0j):
@@ -246,7 +272,7 @@ def run_shard(desc, tier, seed):
 
 def expected_classes(tier):
     return ['multi/boundary', 'multi/interior', 'multi/T=0', 'multi/T=1', 'single/interior',
-            'joints:all', 'joints:some', 'joints:no', 'joints:none']
+            'joints:all', 'joints:some', 'joints:no', 'joints:none', 'after_arc_approximation']
 
 
 def space(tier, seed):
@@ -261,6 +287,11 @@ def replay(case):
     acc = core.ReplayAcc()
     c = dict(case)
     T = c.pop('T', None)
+    if c['what'] == 'arc_approximation':
+        check_after_arc_approximation(tuple(c['word']), c['how'], acc)
+        if T is not None:
+            acc.vlist = [v for v in acc.vlist if v['case'].get('T') == T]
+        return acc.vlist
     if c['what'] == 'equal':
         d = complex(*c['d'])
         segs = []
